@@ -1,7 +1,7 @@
 (* Correspondence encoders for the text passes. *)
 From Coq Require Import List Arith Bool ZArith NArith.
 Import ListNotations.
-From CV Require Import Base.Corr Matcher.NM Matcher.NMCorr Driver.Outcome Passes.Edit.
+From CV Require Import Base.Corr Matcher.NM Matcher.NMCorr Driver.Outcome Passes.Edit Passes.BalancedComplete.
 
 Definition enc_text (t:text) : list Z := zn (length t) :: map Z.of_N t.
 Definition enc_pres (r:pres) : Z := match r with OK => 0 | INVALID => 1 | STOP => 2 | ERROR => 3 | EXC => 4 end%Z.
@@ -24,4 +24,10 @@ Definition run_balanced (x:list (list nat) * (N * N) * option nat * (nat * text)
   let '(tbl, oc, prefix, km, t, st) := x in
   let '(r, t', st') := balanced_transform (table_rxm tbl) (S (length t)) (fst oc) (snd oc) prefix (bmode_of (fst km) (snd km)) t st in
   enc_pres r :: zopt (fun sp => [zn (fst sp); zn (snd sp)]) st' ++ enc_text t'.
+(* the whole all-reject run of a balanced pass without prefix: the spans offered, in order (capped) *)
+Definition run_balanced_all (x:(N * N) * (nat * text) * text * nat) : list Z :=
+  let '(oc, km, t, cap) := x in
+  let l := all_rejected (table_rxm []) (fst oc) (snd oc) (bmode_of (fst km) (snd km)) t (S (length t)) (S (length t))
+             (find (table_rxm []) (fst oc) (snd oc) None t 0%Z) in
+  concat (map (fun st => [zn (fst (fst st)); zn (snd (fst st))]) (firstn cap l)).
 Definition run_span_replace (x:text * span * text) : list Z := let '(t, sp, r) := x in enc_text (span_replace t sp r).
